@@ -4,8 +4,11 @@ import json, os
 V = os.path.dirname(os.path.dirname(os.path.abspath(__file__)))
 cfg = json.load(open(os.path.join(V, "tools", "checks.json")))
 import glob
+integrated = set(open(os.path.join(V, "tools", "integrated.txt")).read().split())
 for f in sorted(glob.glob(os.path.join(V, "tools", "checks.d", "C*.json"))):
-    cfg["checks"].append(json.load(open(f)))
+    c = json.load(open(f))
+    if c["id"] in integrated:      # fragments of checks still under construction are not claimed yet
+        cfg["checks"].append(c)
 checks = []
 for c in cfg["checks"]:
     pid = c["id"]
